@@ -2,7 +2,9 @@
 (* Trace validation for C18: harness/cmd/compaction records, after every flush
    and every change-set swap executed on the real sst.LevelList, the REAL
    layout (LevelList.Document() + a scan of every table), one ndjson line per
-   step.  This module replays the lines: each recorded layout becomes the next
+   step; and, after every Compactor.Compact call, the layout readers still use
+   while the change set is pending ("Build": same contents, same invariants).
+   This module replays the lines: each recorded layout becomes the next
    value of Compaction's `lv`, `truth` follows the flushed entries, and TLC
    evaluates Compaction's own C18 predicates on every recorded state:
 
@@ -62,12 +64,22 @@ TSwap ==
   /\ UNCHANGED <<truth, nflush>>
   /\ Frame
 
+\* the level list readers use after Compactor.Compact has returned and before its change set is applied:
+\* Compaction's CompactPick / CompactBuild leave lv unchanged.  The recorded layout must hold what the previous one
+\* held (and satisfy the invariants); a rearrangement that keeps every read right is accepted.
+TBuild ==
+  /\ IsEvent("Build") /\ EvReadable(Ev)
+  /\ lv' = EvLayout(Ev)
+  /\ VisibleMap(lv') = VisibleMap(lv)
+  /\ UNCHANGED <<truth, nflush>>
+  /\ Frame
+
 TReset ==
   /\ IsEvent("Reset")
   /\ lv' = EmptyLayout /\ truth' = NoTruth /\ nflush' = 0
   /\ Frame
 
-TraceNext == TFlush \/ TSwap \/ TReset
+TraceNext == TFlush \/ TSwap \/ TBuild \/ TReset
 TraceSpec == TraceInit /\ [][TraceNext]_tvars
 
 TraceAccepted ==
